@@ -4,25 +4,25 @@ ROOT = os.path.dirname(os.path.dirname(os.path.abspath(__file__)))
 
 CHECKS = {
     "C01": ("P progcheck", "bounded-exhaustive enumeration of programs (compiled by the real macros through rustc) x all input databases, compared with a naive reference evaluator",
-            "Families F-shape (every rule body of <= 2 clauses over unary/binary relations with every bound/free/repeated/constant/wildcard argument pattern, plus if / let / if-let / for items attached or separate, in a recursive context) and F-scc (all dependency skeletons of <= 3 rules over <= 3 derived relations up to renaming, multi-head rules); every program is run on all 4096 databases over {0,1} (F-scc: all databases with <= 4 facts) with facts in every relation, and every relation is compared with the least model computed by a naive evaluator.",
+            "Families F-shape (every rule body of <= 2 clauses over unary/binary relations with every bound/free/repeated/constant/wildcard argument pattern, plus if / let / if-let / for items attached or separate, in a recursive context) and F-scc (all dependency skeletons of <= 3 rules over <= 3 derived relations up to renaming, multi-head rules); every program is run on all 4096 databases over {0,1} (F-scc: all databases with <= 4 facts) with facts in every relation, and every relation is compared with the least model computed by a naive evaluator. Thorough: additionally the same families over a three-element domain (all databases with <= 3-4 facts) and three-clause bodies.",
             "programs are a cut of the program space (families), domain size 2; reference evaluator and AST printer trusted", "6 C01"),
     "C02": ("P progcheck (default schedule) + S vsched (all schedules of collision harnesses)", "differential serial vs parallel macros on bounded-exhaustive programs x inputs at the default schedule; deviation-bounded exhaustive schedule exploration of collision harnesses under vsched",
-            "Family F-par: a cut through F-scc, F-shape, F-lat, F-agg and the binary eqrel programs, each compiled with ascent!, ascent_par! and ascent_par! + #![inter_rule_parallelism]; every variant is compared with the reference model on every input of the budget while running on a one-worker rayon pool (the 0-deviation schedule).",
+            "Family F-par: a cut through F-scc, F-shape, F-lat, F-agg and the binary eqrel programs, each compiled with ascent!, ascent_par! and ascent_par! + #![inter_rule_parallelism]; every variant is compared with the reference model on every input of the budget while running on a one-worker rayon pool (the 0-deviation schedule); a parallel run that does not return within 60 s is reported as a hang with its replay data. vsched: harnesses H1-H8, H10 (diamond TC, two rules one head, lattice min, lattice then aggregate, negation, parallel eqrel, three-way join, two lattices feeding each other, lattice read by the third clause and written by the head) as ascent_par! and with inter_rule_parallelism, 1-3 workers, every execution with <= 3 (lattice harnesses 2) deviations incl. row-lock acquisitions: same rows / tuples / lattice values as the serial macro, no deadlock, panic or livelock.",
             "one rayon worker in this part (no preemption, nothing stolen); units whose parallel variant rustc rejects are outside the premise 'accepted by both front ends' (counted in the evidence)", "6 C02"),
     "C03": ("P progcheck", "bounded-exhaustive enumeration of lattice programs x all input databases on the compiled real macros, compared with a naive least-fixed-point evaluator",
-            "8 lattice column types (u32, Dual<u32>, bool, Option<u8>, Set<u8>, BoundedSet<2,u8>, ConstPropagation<u8>, (u8,u8)) x 7 program shapes (non-recursive, recursive through the lattice with the lattice clause first/second, ternary lattice with bound/free/wildcard key columns, two lattices feeding each other, all derivations on one key / keyless lattice, two rules improving one key + simple joins on a lattice); all inputs up to a per-program budget; every relation incl. the plain relations derived through upward-closed tests compared with the reference LFP; exactly one row per key.",
+            "8 lattice column types (u32, Dual<u32>, bool, Option<u8>, Set<u8>, BoundedSet<2,u8>, ConstPropagation<u8>, (u8,u8)) x 7 program shapes (non-recursive, recursive through the lattice with the lattice clause first/second, ternary lattice with bound/free/wildcard key columns, two lattices feeding each other, all derivations on one key / keyless lattice, two rules improving one key + simple joins on a lattice, lattice read by the third body clause and written by the head); all inputs up to a per-program budget; every relation incl. the plain relations derived through upward-closed tests compared with the reference LFP; exactly one row per key.",
             "monotone use only (monotone step functions, upward-closed tests, verified exhaustively by the vfn self-test); Product<..> has no Hash impl and cannot be a lattice column", "6 C03"),
     "C04": ("P progcheck", "bounded-exhaustive enumeration of stratified aggregation / negation programs x all input databases on the compiled real macros, compared with a naive stratified evaluator",
-            "Aggregated / negated relation is an input, the output of a non-looping or a looping stratum, a lattice, an aggregate result (depth 2) or head of two strata; aggregators count sum min max mean percentile(50) not + a user aggregator returning 0-2 values; keyed / unkeyed / second-column-bound / constant-key argument patterns; every program in both textual rule orders; all inputs incl. facts in the aggregated relation.",
+            "Aggregated / negated relation is an input, the output of a non-looping or a looping stratum, a lattice, an aggregate result (depth 2) or head of two strata; aggregators count sum min max mean percentile(50) not + a user aggregator returning 0-2 values; keyed / unkeyed / second-column-bound / constant-key argument patterns; one, two (non-simple-join) and three positive clauses in front of the aggregate / negation, the aggregated relation possibly empty while the others are not; every program in both textual rule orders; all inputs incl. facts in the aggregated relation. Thorough: also over a three-element domain.",
             "domain {0,1}; multiplicity is observable through count / sum / mean", "6 C04"),
     "C05": ("P progcheck (+ S vsched for the parallel part)", "bounded-exhaustive programs x inputs (incl. inputs with a duplicated fact) on the compiled real macros with row-multiplicity oracles on every run",
             "Families F-scc, F-lat, F-shape: after every run the number of rows equals the number of distinct tuples plus exactly the surplus the caller put in, the input vector is an unmodified prefix of the result vector (lattice rows: same key, value only grows), one row per lattice key.",
             "serial part only in this entry until the vsched part lands", "6 C05"),
     "C13": ("P progcheck", "bounded-exhaustive enumeration of run / add-facts histories over compiled programs x initial inputs x added fact sets vs the reference fixpoint of the union of all inputs",
-            "Families F-scc, F-lat, F-agg: histories run;run and run;run;add S;run for every initial input of the budget and every single added fact (thorough: pairs and a second add;run), facts added to any relation incl. derived ones; idempotence for all programs, equality with a fresh run for programs without negation / aggregation.",
+            "Families F-scc, F-lat, F-agg: histories run;run and run;run;add S;run for every initial input of the budget and every single added fact (thorough: pairs and a second add;run), facts added to any relation incl. derived ones; idempotence for all programs, equality with a fresh run for programs without negation / aggregation. F-latbound (a lattice read with its lattice column bound by an earlier clause) reproduces the known finding listed in KNOWN_FINDINGS.txt. vsched: harnesses H9 (run; add facts; run on a parallel transitive closure and on a lattice feeding an aggregate), 1-2 workers, <= 2 deviations.",
             "added lattice rows use keys the relation does not hold yet; no caller-made duplicate facts", "6 C13"),
     "C06": ("P progcheck", "differential over syntactic variants of one logical program, all compiled by the real macros, compared with the reference on all inputs",
-            "Units from F-scc and F-shape; variants: every permutation of the rules (<= 4 rules), reversed / rotated declarations, reversed head clauses, every order of mutually independent body clauses, three adversarial variable namings (single letters, underscore variants that collide with generated suffixes, unicode), two relation renamings (alphabetical order reversed; prefixes of each other), injective renamings of the constants into i64 / String / a struct with colliding Hash (generic struct signature, both permutations of the domain), and every input in ascending, descending and rotated tuple order.",
+            "Units from F-scc and F-shape; variants: every permutation of the rules (<= 4 rules), reversed / rotated declarations, reversed head clauses, every order of mutually independent body clauses, a generator / let over constants moved from the front to every later position it is independent of, three adversarial variable namings (single letters, underscore variants that collide with generated suffixes, unicode), two relation renamings (alphabetical order reversed; prefixes of each other), injective renamings of the constants into i64 / String / a struct with colliding Hash (generic struct signature, both permutations of the domain), and every input in ascending, descending and rotated tuple order.",
             "identifiers reserved by the generated code (__-prefixed internals) are not used as names; domain {0,1}", "6 C06"),
     "C07": ("P progcheck", "differential sugared vs hand-expanded (by the harness's own expander implementing the documented rules) vs reference, all inputs",
             "F-sugar: one- and two-clause bodies with every surface form (wildcard, constant, ?pattern binder / constant, repeated variable, expression over a variable of the same or of an earlier clause) alone (thorough: in pairs) in every argument position; negation (bound, wildcard, expression arguments), disjunction and nested disjunction, several head clauses, condition attached to the second clause of a simple join, body-less facts; a let / for item in front of one or two clauses so that a clause argument bound earlier is an equality test inside what looks like a plain join, with a third variant in which every earlier-bound clause variable is written as a fresh variable plus `if` test. The reference evaluator run on the sugared AST must agree with the expander on every input.",
@@ -31,7 +31,7 @@ CHECKS = {
             "F-macro: 9 macro definitions (ident / expr parameters, locals, condition, disjunction, nested and 3-deep invocations, head macro, let + negation, a disjunction of nested invocations, a local determined by a parameter) x 24 call patterns (same macro twice, invocations inside a disjunction whose disjuncts invoke a macro a different number of times followed / preceded by further invocations, head and body position ...) x 7 naming schemes in which call-site variables are spelled like macro locals, like parameters, and like the names the renamer itself generates.",
             "self-referential macros are covered by C15", "6 C08"),
     "C09": ("P progcheck", "differential over packaging configurations, all compiled by the real macros, compared with the reference on all inputs",
-            "F-pack: programs from F-scc, F-lat, F-agg, F-shape, each as ascent! / ascent_run! (inputs captured from locals) / include_source with the text cut at item boundaries (every cut in thorough) under ascent!, ascent_run!, ascent_par! / relations declared with initialisers / every relation re-declared (later declaration and initialiser win) / measure_rule_times, generate_run_timeout, both / generic struct signature with and without a separate impl signature; the whole family a second time built with the cargo feature segment-codegen.",
+            "F-pack: programs from F-scc, F-lat, F-agg, F-shape, each as ascent! / ascent_run! (inputs captured from locals) / include_source with the text cut at item boundaries (every cut in thorough) under ascent!, ascent_run!, ascent_par! / relations declared with initialisers / every relation re-declared (later declaration and initialiser win; also: earlier declaration with an initialiser, later one without) / measure_rule_times, generate_run_timeout, both / generic struct signature with and without a separate impl signature; the whole family a second time built with the cargo feature segment-codegen.",
             "a core set of ~45 programs (quick)", "6 C09"),
     "C15": ("P progcheck, two stages", "exhaustive enumeration of single ill-formedness mutations at every position x four macros; the real macro implementation runs inside rustc (hook), rustc judges what the macro accepts",
             "From 30 (quick) well-formed base programs: undeclared relation and arity +-1 at every atom (heads, bodies, aggregates, negations, bodies of invoked macros); aggregate / negation of a relation in its own stratum directly, via a second rule, via a multi-head rule; rebinding a bound variable by let / if-let / generator / ?pattern / aggregate pattern after every body item; self- and mutually-recursive macros in body, head and disjunction position; include_source! inside ascent_source!; ds attribute on a lattice, two ds attributes; unknown inner / relation attributes; inter_rule_parallelism on serial macros. Every variant must be rejected by the macro (no panic) or by rustc with an error located at the program.",
@@ -43,10 +43,10 @@ CHECKS = {
             "Programs from F-scc, F-lat, F-agg and the binary BYODS programs of F-ds (relation computed in one stratum, read in a later / the same one) compiled with #![generate_run_timeout]; hook H-A2 makes ascent::internal::Instant a per-thread tick counter (1 ns per reading) so that scanning t hits every deadline check; after a false return every tuple must be in the model and every lattice value below the final one, after true the state equals the fixed point, after the resuming run() it equals the fixed point of an uninterrupted run.",
             "serial macro; hook verif-hooks (virtual Instant)", "6 C14"),
     "C16": ("H histcheck", "exhaustive enumeration (all pairs / triples over complete small carriers) on the real Lattice impls",
-            "All 256 values of u8/i8 (pairs; triples in thorough), boundary carriers for wider integers, complete carriers for every shipped composite lattice incl. nestings; every law of the property is evaluated on every pair/triple of the real implementation.",
+            "All 256 values of u8/i8 (pairs; triples in thorough), boundary carriers for wider integers, complete carriers for every shipped composite lattice incl. nestings (tuples whose components are Dual / Option wrappers, Product of tuples with Dual, Rc / Arc with shared and fresh allocations ...); every law of the property is evaluated on every pair/triple of the real implementation.",
             "rustc/std trusted; wide integers only at boundary values", "6 C16"),
     "C17": ("H histcheck", "exhaustive enumeration of all input sequences up to length 6 (7 thorough) on the real aggregators",
-            "Every sequence over {-1,0,1,2} up to the length bound, four size_hint shapes, percentile over a p grid + all rank boundaries, compared with the mathematical definition; panics are violations.",
+            "Every sequence over {-1,0,1,2} up to the length bound, four size_hint shapes, percentile over a p grid + all rank boundaries, compared with the mathematical definition; percentile additionally on n distinct values for every n <= 128 (400) and every p of a quarter-step grid with the rank computed in integer arithmetic; panics are violations.",
             "values from a 4-element alphabet; f64 mean compared exactly (exact for these inputs)", "6 C17"),
     "C18": ("H histcheck", "exhaustive DFS over all operation histories up to a depth bound on the real structures (state = history), reference closure compared after every operation",
             "Every add-sequence over 4 elements to depth 6 (7 thorough) and over 5 elements to depth 4 (5) on the real TrRelUnionFind; histories from non-initial states (r <= 7 (8) nested class collapses, each in one of 4 orders, followed by every add over 9 (10) elements; thorough also every pair of adds after r <= 5); every add/find/union sequence to depth 5 (6) on the real UnionFind incl. the unsafe id-based API; after each operation all public queries and the structures' own invariant checks are compared with a Warshall closure / partition.",
